@@ -230,6 +230,7 @@ func secOracleCapture(g *Gen) func() {
 				hist++
 				// quick tier: one history in ten (among them warm-up histories) stays token-less, so that the symbolic path is run too
 				skip = (!g.Quick() && hist%3 != 0) || (g.Quick() && hist%10 == 6)
+				resetConsensusParams() // as runExec does at every reset line (wenv.go)
 				if !skip {
 					x.Reset()
 				}
